@@ -10,12 +10,16 @@
       inverse of the mutation that appended it, for the refund counter, logs, access list and for balance / nonce / code / storage /
       self-destruct of a cached state object (the "one entry per mutation, exact inverse" mechanism the property is anchored in);
     * the EIP-3529 refund computation of ApplyEvmMsg equals go-ethereum's for all inputs.
-  NOT proved: the full simulation between NibiruModel.StateDB and GethSpec for arbitrary call sequences (lazy loading and origin
-  caching make the relation non-trivial); their observational equality is established by the three-way correspondence run only.
+    * over the same model, for ANY sequence of write calls on cached accounts: Snapshot … RevertToSnapshot succeeds and restores
+      every observable of the StateDB (balance, nonce, code hash, self-destruct flag, current and committed value of every slot,
+      refund counter, log count, access list) — induction over the sequence (NibiruProofs/SDBRevert.lean);
+  NOT proved: the full simulation between NibiruModel.StateDB and GethSpec for arbitrary call sequences incl. account creation,
+  lazily loaded accounts and Commit; their observational equality is established by the three-way correspondence run only.
   The interpreter itself is the same code on both sides and is trusted.
 -/
 import NibiruModel.GethSpec
 import NibiruModel.StateDB
+import NibiruProofs.SDBRevert
 
 namespace Nibiru.GethSpec
 open Nibiru
@@ -224,5 +228,31 @@ theorem C03_journal_inverse_storage (s : S) (a k v : Nat) (o : Obj) (h : AList.f
               dirty := AList.set (AList.set (touchState s a o k).dirty k v) k (objState s a o k) }, ?_, ?_⟩
   · simp [setObj, AList.find?_set_self]
   · simp [AList.find?_set_self]
+
+/-- **C03 (Nibiru's journal, sequences).** Any sequence of write calls on cached accounts is undone by reverting the journal to its
+    former length: the StateDB is observationally what it was (see `Eqv`: balances, nonces, code hashes, self-destruct flags,
+    current and committed value of every storage slot, refund counter, number of logs, access list). -/
+theorem C03_journal_undoes_any_write_sequence {A : List Nat} (s : S) (hc : Cached A s) (ws : List WOp)
+    (hw : ∀ w ∈ ws, ∀ a, w.acct = some a → a ∈ A) : Eqv A (revertTo (applyAll s ws) s.journal.length) s :=
+  revertTo_restores s hc ws hw
+
+/-- **C03 (Nibiru's journal, Snapshot / RevertToSnapshot).** After `Snapshot`, any sequence of write calls on cached accounts, and
+    `RevertToSnapshot(id)`: the id is valid and the StateDB is observationally what it was at the snapshot — the behaviour the
+    reference semantics has by construction (`C03_spec_revert_restores`). -/
+theorem C03_snapshot_revert_restores {A : List Nat} (s : S) (hc : Cached A s) (hrev : ∀ r ∈ s.revisions, r.1 < s.nextRev)
+    (ws : List WOp) (hw : ∀ w ∈ ws, ∀ a, w.acct = some a → a ∈ A) :
+    ∃ s3, revertToSnapshot (applyAll (snapshot s).1 ws) (snapshot s).2 = some s3 ∧ Eqv A s3 s :=
+  snapshot_revert_restores s hc hrev ws hw
+
+/-- non-vacuity: a state with two cached accounts and a history that writes balance, storage, code, self-destructs, logs -/
+example : ∃ s3, revertToSnapshot (applyAll (snapshot ({ objs := [(1, { balance := 5, nonce := 1 }), (2, { codeHash := 7 })] } : S)).1
+      [.addBalance 1 3, .setState 2 0 9, .setCode 2 8, .suicide 1, .addLog, .addRefund 4800, .subRefund 100, .addSlot 2 0])
+      (snapshot ({ objs := [(1, { balance := 5, nonce := 1 }), (2, { codeHash := 7 })] } : S)).2 = some s3 ∧
+    Eqv [1, 2] s3 { objs := [(1, { balance := 5, nonce := 1 }), (2, { codeHash := 7 })] } :=
+  C03_snapshot_revert_restores (A := [1, 2]) _ (by intro a ha; simp at ha; rcases ha with rfl | rfl <;> simp [AList.find?])
+    (by simp) _ (by
+      intro w hwm a ha
+      simp only [List.mem_cons, List.mem_singleton, List.not_mem_nil, or_false] at hwm
+      rcases hwm with rfl | rfl | rfl | rfl | rfl | rfl | rfl | rfl <;> simp [WOp.acct] at ha <;> simp [← ha])
 
 end Nibiru.SDB
